@@ -27,7 +27,8 @@ RULE = ("workloads = histories of add / iterate(k pulls, then abandon) / close o
         "either stopping at the first exception or continuing the history; every run ends with close() until it returns "
         "normally (at most 3 calls). Streams: valid (full iteration then close), defect (= the fault sweep itself), "
         "boundary (n multiple of cap, n=0, cap=1, pulls 0/1/n), adversarial (continue after the exception, close twice, "
-        "reuse after close). Non-trivial: the fault-free run makes at least 8 I/O calls; distinct by hash of the case")
+        "reuse after close). About a third of the cases run with descriptor 0 closed around the workload, so that the first "
+        "descriptor mkstemp returns is number 0; the descriptor census (/proc/self/fd read through a known descriptor) includes 0. Non-trivial: the fault-free run makes at least 8 I/O calls; distinct by hash of the case")
 ASSUMPTIONS = [
     "single-shot fault schedule: exactly one I/O call of a run fails",
     "fault wrapper: mkstemp, gzip.open, write, read raise before doing anything; handle.close and os.close call the real "
@@ -38,6 +39,13 @@ ASSUMPTIONS = [
     "the harness keeps no reference to exceptions or generators across the measurement",
     "after a failed spill (fault in gzip.open(w), write or the write handle's close) the stash is half written; further "
     "add/iteration on that sorter is not modelled (reported as unmodelled on both sides), close() is",
+    "finding (not a violation of the property as worded, reported in the distribution table as "
+    "writer-never-closes-after-spill-fault): after a failed spill reached through MafWriter every later MafWriter.close() "
+    "raises (AttributeError / TypeError / MafFormatException), Sorter.close is never reached and there is no public way to "
+    "close the writer's sorter, so its spill files and descriptors stay until the process exits; the conditional clause "
+    "'if closing a sorting writer returns normally' is vacuous there",
+    "descriptor numbers: 0 is a legitimate descriptor (mkstemp returns it to a process without a stdin); the model numbers "
+    "descriptors from 0 and represents 'already closed' by None, never by 0",
     "the writer's MafSorter is built with max_objects_in_ram lowered by the harness (maflib.writer.MafSorter wrapped) "
     "and its spill files are directed to the case's private directory by the mkstemp wrapper",
 ]
@@ -140,7 +148,47 @@ def uninstall(saved):
 
 
 def _fds():
-    return set(os.listdir("/proc/self/fd"))
+    """census of open descriptors, 0 included.  /proc/self/fd is listed through a descriptor we open ourselves
+    and leave out of the result (a plain os.listdir would take the lowest free descriptor for the duration of
+    the listing - number 0 when stdin is closed - and hide a leaked descriptor 0)"""
+    dfd = os.open("/proc/self/fd", os.O_RDONLY)
+    try:
+        names = os.listdir(dfd)          # lists through a duplicate of dfd, which is closed again
+    finally:
+        os.close(dfd)
+    out = set()
+    for n in names:
+        try:
+            os.fstat(int(n))             # drops dfd and its duplicate: both are closed by now
+        except OSError:
+            continue
+        out.add(int(n))
+    return out
+
+
+class NoStdin:
+    """runs the body with descriptor 0 closed (a daemon, a job started with <&-): the first descriptor the
+    sorter gets from mkstemp is then number 0, a legitimate descriptor that close() has to release too"""
+
+    def __init__(self, on):
+        self.on = on
+        self.saved = None
+
+    def __enter__(self):
+        if self.on:
+            try:
+                self.saved = os.dup(0)
+            except OSError:
+                self.saved = None        # already without a stdin
+            else:
+                os.close(0)
+        return self
+
+    def __exit__(self, *a):
+        if self.on and self.saved is not None:
+            os.dup2(self.saved, 0)
+            os.close(self.saved)
+        return False
 
 
 # ------------------------------------------------------------ one run of a Sorter history
@@ -149,7 +197,9 @@ def _sorter_run(case, fault):
     tmp = tempfile.mkdtemp(prefix="c18_", dir=WORK)
     inj = Inj(fault[0] if fault else None, bool(fault[1]) if fault else False, tmp)
     saved = install(inj)
+    nostdin = NoStdin(bool(case.get("nostdin")))
     try:
+        nostdin.__enter__()
         before = _fds()
         sorter, _ = G.make_generic({"flavour": "t/int"}, case["cap"], case["always"], tmp)
         obs, surfaced, tainted, stopped = [], [], False, False
@@ -204,8 +254,9 @@ def _sorter_run(case, fault):
         left = len(os.listdir(tmp))
         leak = len(_fds() - before)
         return {"obs": obs, "closes": closes, "final": [left, leak], "log": inj.log, "hit": inj.hit,
-                "_surfaced": surfaced, "_enoent": inj.enoent}
+                "_surfaced": surfaced, "_enoent": inj.enoent, "_leaked_fds": sorted(_fds() - before)}
     finally:
+        nostdin.__exit__()
         uninstall(saved)
         shutil.rmtree(tmp, ignore_errors=True)
 
@@ -232,7 +283,9 @@ def _writer_run(case, fault):
     saved_sorter = mw.MafSorter
     cap = case["cap"]
     mw.MafSorter = lambda **kw: MafSorter(max_objects_in_ram=cap, **kw)
+    nostdin = NoStdin(bool(case.get("nostdin")))
     try:
+        nostdin.__enter__()
         before = _fds()
         header = MafHeader.from_lines(["#sort.order Coordinate"], validation_stringency=ValidationStringency.Silent)
         out = _Out()
@@ -284,8 +337,9 @@ def _writer_run(case, fault):
         return {"adds": adds, "closes": closes, "out": [[keyof[i], i, 1] for i in ids], "closed": closed,
                 "final": None if was_tainted else [left, leak], "log": None if was_tainted else inj.log, "hit": inj.hit,
                 "_surfaced": surfaced, "_enoent": inj.enoent, "_real_closes": real_closes, "_written": written,
-                "_final": [left, leak]}
+                "_final": [left, leak], "_leaked_fds": sorted(_fds() - before)}
     finally:
+        nostdin.__exit__()
         mw.MafSorter = saved_sorter
         uninstall(saved)
         shutil.rmtree(tmp, ignore_errors=True)
@@ -381,7 +435,8 @@ def _judge(case, r, label):
             if r["final"][0]:
                 out.append("spill-file-left %s: %d file(s) after close() returned" % (label, r["final"][0]))
             if r["final"][1]:
-                out.append("descriptor-left %s: %d descriptor(s) after close() returned" % (label, r["final"][1]))
+                out.append("descriptor-left %s: descriptor(s) %r still open after close() returned%s" % (
+                    label, r.get("_leaked_fds"), " (stdin closed during the run)" if case.get("nostdin") else ""))
         # between operations no gzip handle stays open: descriptors = registered spill files
         for n, o in enumerate(r["obs"]):
             if o[3] > o[2]:
@@ -399,7 +454,8 @@ def _judge(case, r, label):
             if r["_final"][0]:
                 out.append("spill-file-left %s: %d file(s) after MafWriter.close() returned" % (label, r["_final"][0]))
             if r["_final"][1]:
-                out.append("descriptor-left %s: %d descriptor(s) after MafWriter.close() returned" % (label, r["_final"][1]))
+                out.append("descriptor-left %s: descriptor(s) %r still open after MafWriter.close() returned%s" % (
+                    label, r.get("_leaked_fds"), " (stdin closed during the run)" if case.get("nostdin") else ""))
     return out
 
 
@@ -421,7 +477,7 @@ def classify(case, obs):
     size = "0" if n == 0 else ("1-15" if n < 16 else ("16-40" if n <= 40 else "41+"))
     unclosable = any(r.get("_real_closes") and r["_real_closes"][-1] != [] for r in obs["runs"])
     return "%s/%s/%s/calls=%s%s%s" % (case["stream"], case["kind"], "sweep" if case["fault"] == "sweep" else "single",
-                                      size, "/enoent" if case.get("enoent") else "",
+                                      size, ("/enoent" if case.get("enoent") else "") + ("/nostdin" if case.get("nostdin") else ""),
                                       "/writer-never-closes-after-spill-fault" if unclosable else "")
 
 
@@ -458,7 +514,7 @@ def _history(rng, stream):
             ops.append(["close"])
     return {"stream": stream, "kind": "sorter", "cap": cap, "always": rng.random() < 0.6,
             "stop": stream != "adversarial" or rng.random() < 0.4, "ops": ops, "fault": "sweep",
-            "enoent": rng.random() < 0.25}
+            "enoent": rng.random() < 0.25, "nostdin": rng.random() < 0.35}
 
 
 def _wcase(rng, stream):
@@ -467,7 +523,7 @@ def _wcase(rng, stream):
     rng.shuffle(keys)
     cap = rng.randint(1, n + 1) if stream != "boundary" or not n else rng.choice([1, n, n + 1])
     return {"stream": stream, "kind": "writer", "cap": cap, "recs": [[k, i] for i, k in enumerate(keys)],
-            "fault": "sweep", "enoent": rng.random() < 0.25}
+            "fault": "sweep", "enoent": rng.random() < 0.25, "nostdin": rng.random() < 0.35}
 
 
 def generate(rng, n):
@@ -500,6 +556,13 @@ def corpus():
          "fault": "sweep", "enoent": True},
         {"stream": "corpus", "kind": "writer", "cap": 2, "recs": [[3, 0], [1, 1], [2, 2], [5, 3], [4, 4]], "fault": "sweep",
          "enoent": False},
+        # seeded change `if desc:` for `if desc is not None:` in Sorter.close: descriptor 0 (what mkstemp returns
+        # to a process without a stdin) was never closed; fault-free
+        {"stream": "corpus", "kind": "sorter", "cap": 2, "always": True, "stop": True, "ops": adds[:2] + [["iter", 4]],
+         "fault": None, "nostdin": True},
+        {"stream": "corpus", "kind": "writer", "cap": 2, "recs": [[1, 0], [0, 1]], "fault": None, "nostdin": True},
+        {"stream": "corpus", "kind": "sorter", "cap": 2, "always": True, "stop": True, "ops": adds + [["iter", 7]],
+         "fault": "sweep", "enoent": False, "nostdin": True},
     ]
 
 
@@ -513,5 +576,6 @@ def shrink(case):
         for i in range(len(recs)):
             yield dict(case, recs=recs[:i] + recs[i + 1:])
     if case["fault"] == "sweep":
+        yield dict(case, fault=None)
         for i in range(60):
             yield dict(case, fault=[i, 1 if case.get("enoent") else 0])
